@@ -144,17 +144,11 @@ Fixpoint pn_go (s : bytes) (first : bool) (lab : bytes) (lstart : bytes) (wasdot
   | x :: r => pn_go r false (lab ++ [x]) lstart false name_len cap compress st
   end.
 
-(* is_fqdn as packDomainName's IsFqdn call sees it (octet model of defaults.go IsFqdn) *)
-Fixpoint bs_run_n (l : bytes) : nat :=
-  match l with b :: r => if b =? 92 then S (bs_run_n r) else O | [] => O end.
-Definition is_fqdn_b (s : bytes) : bool :=
-  match rev s with 46 :: r => Nat.even (bs_run_n r) | _ => false end.
-
 Definition pack_name (s : bytes) (cap : N) (compress : bool) (st : pn_state) : res pn_state :=
   match s with
   | [] => Ok st
   | _ =>
-    if negb (is_fqdn_b s) then Err "fqdn"
+    if negb (is_fqdn s) then Err "fqdn"
     else
       do e <- pn_go s true [] s false 0 cap compress st;
       match e with
@@ -209,6 +203,6 @@ Definition is_domain_name (s : bytes) : N * bool :=
   match s with
   | [] => (0, false)
   | _ =>
-    let s := if is_fqdn_b s then s else s ++ [46] in
+    let s := if is_fqdn s then s else s ++ [46] in
     idn_go s true 0 false false 0 0
   end.
